@@ -4,6 +4,7 @@ S(op, f) == << <<op, f>> >>
 WSess(f)  == << <<"OpenW", f>>, <<"Write", f>>, <<"FdFlush", f>>, <<"Write", f>>, <<"Close", f>> >>
 WnSess(f) == << <<"OpenWn", f>>, <<"Write", f>>, <<"Close", f>> >>
 RSess(f)  == << <<"OpenR", f>>, <<"Read", f>>, <<"Close", f>> >>
+RpSess(f) == << <<"OpenR", f>>, <<"ReadP", f>>, <<"Close", f>> >>
 \* DirGetNode is excluded: Go's map iteration order in cacheSync cannot be forced by gates
 FileSessions(f) == {WSess(f), WnSess(f), RSess(f)} \cup
     {S(op, f) : op \in {"FileFlush", "FileSync", "Size", "GetNode", "Mode", "ModTime", "SetMode", "SetModTime"}}
@@ -22,7 +23,7 @@ FdSessions == {FdS("OpenW", "f1", <<"FdFlush", "WriteAt">>), FdS("OpenWn", "f1",
 Two(a, b) == a \o b
 Base == FileSessions("f1") \cup DirSessions \cup {WSess("f2"), S("SetMode", "f2"), S("Mode", "f2"), RSess("f2")}
         \cup SubSessions \cup FdSessions
-        \cup {WaSess("f1"), WSess("f3"), RSess("f3"), S("SetMode", "f3"), S("FileFlush", "f3"), S("Mode", "f3")}
+        \cup {RpSess("f1"), WaSess("f1"), WSess("f3"), RSess("f3"), S("SetMode", "f3"), S("FileFlush", "f3"), S("Mode", "f3")}
 Sess == Base \cup {Two(WSess("f1"), RSess("f1")), Two(S("SetModTime", "f1"), RSess("f1")), Two(S("Mode", "f1"), WnSess("f1"))}
 GenScen == {<<a, b>> : a \in Sess, b \in Sess} \cup
            {<<a, b, c>> : a \in Sess, b \in {WSess("f1"), S("Mode", "f1"), S("SetMode", "f1"), S("List", "f1")}, c \in Sess}
